@@ -30,6 +30,8 @@ func c04(c *Ctx) {
 	sMatch(c, "R8/S-MATCH")
 	c19p(c, "R9/C19.")
 	sLockDiscipline(c, "R10/S-LOCK", "raftState", "LogCache")
+	coreCommitBundle(c, "R11", "S-MATCH")
+	c06R4(c, "R11/C06.R4")
 }
 
 // prevCheckTracks: tracks of the previous-entry check in appendEntries.
